@@ -32,13 +32,14 @@ func c08Doc(k int) *adoc.Doc {
 	default:
 		r := adoc.E("r", adoc.E("div", adoc.T("2")), adoc.E("mod", adoc.T("3")), adoc.E("and", adoc.T("5")), adoc.E("or", adoc.T("7")), adoc.E("a-b", adoc.T("11")), adoc.E("a.b", adoc.T("13")),
 			adoc.E("a1", adoc.T("17")), adoc.E("child", adoc.T("19")), adoc.E("text", adoc.T("23")), adoc.E("node", adoc.T("29")), adoc.E("comment", adoc.T("31")), adoc.E("self", adoc.T("37")),
-			adoc.E("_x", adoc.T("41")), adoc.E("#x", adoc.T("43")), adoc.E("é", adoc.T("47")), adoc.E("a", adoc.T("53")), adoc.E("b", adoc.T("59")), adoc.E("processing-instruction", adoc.T("61")), adoc.E("x#", adoc.T("67")))
+			adoc.E("_x", adoc.T("41")), adoc.E("#x", adoc.T("43")), adoc.E("é", adoc.T("47")), adoc.E("a", adoc.T("53")), adoc.E("b", adoc.T("59")), adoc.E("processing-instruction", adoc.T("61")), adoc.E("x#", adoc.T("67")),
+			adoc.ENS(adoc.URI_U, "", "text", adoc.T("71")), adoc.ENS(adoc.URI_U, "", "self", adoc.T("73")), adoc.ENS(adoc.URI_U, "", "child", adoc.T("79")), adoc.ENS(adoc.URI_U, "", "a", adoc.T("83")), adoc.ENS(adoc.URI_U, "", "div", adoc.T("89")))
 		d.Root.Add(r)
 	}
 	return d.Finish()
 }
 
-var c08Env = EnvSpec{NS: map[string]string{"p": adoc.URI_U, "div": adoc.URI_U}, Vars: []VarSpec{numVar("v", 3), numVar("div", 4), {Local: "w", Type: "node-set", Nodes: []string{"/0"}}}}
+var c08Env = EnvSpec{NS: map[string]string{"p": adoc.URI_U, "div": adoc.URI_U, "self": adoc.URI_U, "child": adoc.URI_U, "text": adoc.URI_U, "node": adoc.URI_V}, Vars: []VarSpec{numVar("v", 3), numVar("div", 4), {Local: "w", Type: "node-set", Nodes: []string{"/0"}}}}
 
 // c08Quirks returns the parser options reproducing the open acceptance findings.
 func c08Quirks() (refxp.Options, map[string]refxp.Options) {
